@@ -38,7 +38,7 @@ RULE = (
     "Distinct = distinct canonical JSON."
 )
 ASSUMPTIONS = [
-    "values are finite, |v| <= 1e9 (1e12 for counters); NaN/inf are not generated",
+    "values are finite, 0 or 1e-9 <= |v| <= 1e9 (1e12 for counters); NaN, inf and subnormal magnitudes are not generated (a subnormal baseline makes the relative difference overflow to inf%)",
     "a race file written by the current Rally contains every result key (absent metrics are None / [] / {}); files lacking newer keys are a separate class",
     "Diff is compared after parsing the printed cell: tolerance half a unit of the last printed digit (0.5e-5, 0.5e-2 for Diff %) + 1e-9 relative",
     "Diff % is only compared when the baseline is non-zero (the relative difference to 0 is not defined by the statement)",
@@ -48,7 +48,7 @@ ASSUMPTIONS = [
     "markdown: tabulate re-parses numeric-looking strings identically for the coloured and the plain table, so file == console without ANSI is asserted exactly",
 ]
 BUDGET = {"quick": 800, "thorough": 7000}
-WALL_BUDGET_S = {"quick": 85, "thorough": 1300}
+WALL_BUDGET_S = {"quick": 70, "thorough": 1300}
 REQUIRED_CLASSES = {"improved-and-regressed-in-one-task": 100, "tiny-diff": 100, "partial-task-overlap": 50, "negative-values": 30, "from-records": 30}
 
 ANSI = re.compile(r"\x1b\[[0-9;]*m")
@@ -65,7 +65,7 @@ LEGACY_CRASH = "crash/legacy-file-without-transform-keys"
 
 # ------------------------------------------------------------------------------------------------ generator
 _KNOBS = st.tuples(
-    st.sampled_from(["dicts"] * 17 + ["records"] * 3 + ["negative"] * 3 + ["legacy"] * 2 + ["legacy-crash"] * 2),
+    st.sampled_from(["dicts"] * 18 + ["records"] * 3 + ["negative"] * 3 + ["legacy"] * 2 + ["legacy-crash"] * 1),
     st.sampled_from(["markdown", "markdown", "csv"]),
     st.booleans(),
     st.sampled_from([None, "decimal", "right"]),
